@@ -86,6 +86,11 @@ Definition init_z (z : N) : st :=
   {| fc := {| in_count := 0; out_count := 0; depth := 0; max_depth := FILTER_NO_MAX_DEPTH; ftime := NO_TIME; fsize := z |};
      enabled := true; cached := true; stack := []; ridx := 0; out := []; warned := false |}.
 
+(* record --disable / --trace=off (UFTRACE_TRACE_OFF): tracing starts switched off (mcount_enabled = false before the first
+   thread is prepared, so enable_cached = false as well) until a trace_on trigger *)
+Definition init_off : st := {| fc := fc0; enabled := false; cached := false; stack := []; ridx := 0; out := [];
+                               warned := false |}.
+
 Inductive ev := Enter (a : N) (t : N) | Leave (t : N) | ForkChild.
 
 (* ---------------------------------------------------------------- record_trace_data *)
@@ -484,6 +489,9 @@ Definition mkcfgL (tr : list (N * trig)) (fm cl lm : bool) (gd thr ms : N) (size
 (* one correspondence case: model run vs. observed states and records *)
 Definition agree_case (c : cfg) (es : list ev) (ostates : list obs) (orecs : list seen5) : bool :=
   let '(l, (s, _)) := trace c es (init, []) in
+  list_eqb obs_eqb l ostates && list_eqb seen_eqb (map seen (out s)) orecs.
+Definition agree_case_off (c : cfg) (es : list ev) (ostates : list obs) (orecs : list seen5) : bool :=
+  let '(l, (s, _)) := trace c es (init_off, []) in
   list_eqb obs_eqb l ostates && list_eqb seen_eqb (map seen (out s)) orecs.
 Definition agree_case_z (z : N) (c : cfg) (es : list ev) (ostates : list obs) (orecs : list seen5) : bool :=
   let '(l, (s, _)) := trace c es (init_z z, []) in
